@@ -86,8 +86,9 @@ impl<'a, TPrinter: Printer> FileExecutor<'a, TPrinter> {
                 #[cfg(feature="verif_hooks")]
                 crate::verif_hooks::probe("file_line");
 
+                // An interrupt ends the whole input, not just the current file (the next file may be a pipe that blocks)
                 if !self.running.load(Ordering::SeqCst) {
-                    break;
+                    break 'readers;
                 }
 
                 // A line that cannot be read (I/O error, invalid UTF-8) is reported, not silently treated as the end of the file
